@@ -43,6 +43,10 @@ type Check struct {
 	// Exhaustive reports whether the enumeration covers its stated space
 	// completely (false when a cap was hit).  Nil means true.
 	Extra func(tier string) map[string]any
+	// CrashSig refines the signature of a case that killed or hung its worker
+	// (class is fatal:stack-overflow, fatal:out-of-memory, hang, died, ...), so that a
+	// listed finding does not mask every other crash.  Nil keeps the class.
+	CrashSig func(key, class string) string
 }
 
 // Failure is one oracle failure on one case.
@@ -159,7 +163,11 @@ func (e *Enum) Do(key string, fn func(c *Ctx)) {
 	}
 	e.mine++
 	if e.mine <= e.skip {
-		// already executed (or blamed) before a restart; still counts as seen
+		// already executed (or blamed) by an earlier incarnation of this worker, whose
+		// statistics died with it: count the case, its outcome histogram entry is lost
+		e.st.Evaluations++
+		e.st.Distinct++
+		e.st.Counters["cases_executed_before_a_worker_restart"]++
 		return
 	}
 	if e.crash && e.cur != nil {
@@ -370,7 +378,7 @@ func runWorker(ck *Check, tier, worker string, skip int64, rkey string) int {
 		debug.SetMaxStack(64 << 20)
 		// address-space cap so that a runaway allocation dies here, not the sandbox
 		var rl syscall.Rlimit
-		rl.Cur, rl.Max = 12<<30, 12<<30
+		rl.Cur, rl.Max = 3<<30, 3<<30
 		syscall.Setrlimit(syscall.RLIMIT_AS, &rl)
 	}
 	ck.Enumerate(e)
@@ -743,6 +751,9 @@ func runShard(self string, ck *Check, tier string, ss *shardState, n int) (Stats
 		return st, fails, &Failure{Sig: "harness:worker-died-unattributed:" + class, Msg: trim(es, 2000)}
 	}
 	ss.skip = mine
+	if ck.CrashSig != nil {
+		class = ck.CrashSig(key, class)
+	}
 	return st, fails, &Failure{Sig: class, Key: key, Input: key, Msg: fmt.Sprintf("worker process died (%v) while executing this case\n%s", err, trim(es, 1500))}
 }
 
@@ -802,7 +813,7 @@ func reproduces(self string, ck *Check, tier string, f Failure) bool {
 	case <-time.After(hangLimit(ck) + 30*time.Second):
 		cmd.Process.Kill()
 		<-donec
-		return f.Sig == "hang"
+		return f.Sig == "hang" || strings.HasPrefix(f.Sig, "hang@")
 	}
 	for _, line := range strings.Split(out.String(), "\n") {
 		if strings.HasPrefix(line, "F ") {
@@ -814,6 +825,11 @@ func reproduces(self string, ck *Check, tier string, f Failure) bool {
 	}
 	if err != nil {
 		es := errb.String()
+		base := f.Sig
+		if i := strings.Index(base, "@"); i > 0 {
+			base = base[:i]
+		}
+		f.Sig = base
 		switch {
 		case f.Sig == "fatal:stack-overflow":
 			return strings.Contains(es, "stack overflow") || strings.Contains(es, "stack exceeds")
